@@ -9,7 +9,8 @@ from concurrent.futures import ThreadPoolExecutor
 
 REPO = os.environ.get("VERIF_REPO", "/repo")
 VERIF = os.path.dirname(os.path.dirname(os.path.abspath(__file__)))
-BUILD = os.path.join(VERIF, ".build")
+BUILD = os.path.join(VERIF, ".build") if REPO == "/repo" else \
+    os.path.join("/tmp", "vp-build-" + hashlib.sha1(REPO.encode()).hexdigest()[:10])
 GUARD = "QB_VERIF"
 
 SOURCES = ("util hdb ringbuffer ringbuffer_helper array loop loop_poll loop_job "
